@@ -219,7 +219,13 @@ _u.args = dict(file_hashes=lambda a: _Hashes(), self=_self, cause=ty.EnumOf(Hash
 _u.env = dict(File=_file, stat=type("stat", (), dict(filemode=staticmethod(lambda m: "-"))), fmt_short_digest=lambda d: "digest")
 _u.may_raise_internal = {ConsistencyError: None}
 _u.finish = _finish
-_u.entry = lambda file_hashes: True  # scope: exactly two distinct requested paths (see the module text)
+def _two_paths(file_hashes):
+    """Scope of the proof: the request names exactly two distinct paths (the loops run natively over lists of that
+    length; every combination of cause, old state and hash-known-ness of both records is executed)."""
+    return True
+
+
+_u.entry = _two_paths
 _u.note = "applies new file hashes with the given cause; verified for requests of exactly two paths (C09_hashes)"
 
 
